@@ -73,8 +73,9 @@ static void drv_setup(void) {
 static void waiter(void) {
   while (atomic_load(&ops_done) < total_ops) {
     atomic_fetch_add(&tick, 1);
-    for (int i = 0; i < 100 && atomic_load(&ops_done) < total_ops; i++) {
-    }
+    /* wait for progress of the others (not a busy loop: under priority scheduling with long stalls a
+       spinning helper of high priority would starve the workers and exhaust the step budget) */
+    vrt_yield_hint();
   }
 }
 static void drv_op(int tid, const char* op, const char* a1, const char* a2, const char* a3) {
